@@ -20,6 +20,7 @@ const (
 	c10AfterSnapshot  = "publisher.publish.afterSnapshot"
 	c10BeforeDelivery = "publisher.publish.beforeDelivery"
 	c10Wait           = 10 * time.Second
+	c10OpWait         = 3 * time.Second // a Publish / Unsubscribe of the main goroutine that has not returned by then hangs
 )
 
 // ---- park controller for the background publisher goroutines -------------------------------------------
@@ -84,6 +85,29 @@ type c10World struct {
 	depth   map[int64][]c10Ev // per goroutine: the publishes initiated by the harness that are active (q, v)
 	ctl     *c10Ctl
 	threads map[int]*c10Thr
+	hung    bool               // an operation did not return: the rest of the case is not executed
+	allH    []*fpgo.HandlerDef // every handler created, closed at the end of the case
+}
+
+// run f on its own goroutine; ok=false if it has not returned within c10OpWait (reported as `hang`)
+func (w *c10World) finishes(f func()) (ok bool, panicked bool) {
+	done := make(chan bool, 1)
+	go func() {
+		defer func() {
+			if r := recover(); r != nil {
+				done <- true
+			}
+		}()
+		f()
+		done <- false
+	}()
+	select {
+	case p := <-done:
+		return true, p
+	case <-time.After(c10OpWait):
+		w.hung = true
+		return false, false
+	}
 }
 
 func (w *c10World) record(e c10Ev) {
@@ -207,7 +231,8 @@ func c10Fn(f string) func(int) int {
 
 // wait until every handler has run everything posted so far (FIFO: a sentinel posted now runs last)
 func (w *c10World) drain() bool {
-	for round := 0; round < 2; round++ {
+	// a forwarder running on a handler may post further deliveries behind the sentinel: one more round per publisher
+	for round := 0; round < len(w.pubs)+1; round++ {
 		for _, pub := range w.pubs {
 			if pub.handler == nil {
 				continue
@@ -216,7 +241,8 @@ func (w *c10World) drain() bool {
 			go pub.handler.Post(func() { close(done) })
 			select {
 			case <-done:
-			case <-time.After(c10Wait):
+			case <-time.After(c10OpWait):
+				w.hung = true
 				return false
 			}
 		}
@@ -286,22 +312,35 @@ func (w *c10World) doOp(tok string) (out string) {
 		return "+" + strconv.Itoa(s.id)
 	case name == "u":
 		id, _ := strconv.Atoi(arg)
-		w.unsubscribe(pub, id)
+		if ok, pk := w.finishes(func() { w.unsubscribe(pub, id) }); !ok {
+			return "hang"
+		} else if pk {
+			return "panic"
+		}
 		if !w.drain() {
 			return "hang"
 		}
 		return "-"
 	case name == "p":
 		v, _ := strconv.Atoi(arg)
-		w.publish(pub, v)
+		if ok, pk := w.finishes(func() { w.publish(pub, v) }); !ok {
+			return "hang"
+		} else if pk {
+			return "panic"
+		}
 		if !w.drain() {
 			return "hang"
 		}
 		return w.takeEvents()
 	case name == "c":
 		return "n=" + strconv.Itoa(pub.p.VerifSubscriberCount())
-	case name == "h":
+	case name == "h", name == "hb":
+		// h: SubscribeOn(Handler.New()) (unbuffered channel); hb: a handler with a buffered channel
 		h := fpgo.Handler.New()
+		if name == "hb" {
+			h = fpgo.Handler.NewByCh(make(chan func(), 16))
+		}
+		w.allH = append(w.allH, h)
 		gidCh := make(chan int64, 1)
 		h.Post(func() { gidCh <- fpgo.VerifGoID() })
 		w.mu.Lock()
@@ -379,6 +418,9 @@ func c10RunOps(body string) string {
 			continue
 		}
 		outs = append(outs, w.doOp(tok))
+		if w.hung {
+			break
+		}
 	}
 	// let parked goroutines go and close the handlers
 	for _, t := range w.threads {
@@ -394,11 +436,11 @@ func c10RunOps(body string) string {
 		case <-time.After(time.Second):
 		}
 	}
-	w.drain()
-	for _, pub := range w.pubs {
-		if pub.handler != nil {
-			pub.handler.Close()
-		}
+	if !w.hung {
+		w.drain()
+	}
+	for _, h := range w.allH {
+		h.Close()
 	}
 	return strings.Join(outs, " | ")
 }
